@@ -223,10 +223,10 @@ def _line(case):
             okp, plane = c.lib("Plane.PN", L.Plane.PN, list(qq), list(nrm))
             if okp:
                 nn = float(np.linalg.norm(nrm))
-                okc, r = c.lib("Plane.contains", lambda: plane.contains(qq.copy(), tol=TOL * Sq * max(1.0, nn)))
+                okc, r = c.lib("Plane.contains", lambda: plane.contains(qq.copy(), tol=TOL * Sq * nn))
                 if okc:
                     c.true("Plane.contains/defining", bool(r), "plane does not contain the point it was built from")
-                okc, r = c.lib("Plane.contains", lambda: plane.contains(qq + 0.05 * Sq * refs.unit(nrm), tol=TOL * Sq * max(1.0, nn)))
+                okc, r = c.lib("Plane.contains", lambda: plane.contains(qq + 0.05 * Sq * refs.unit(nrm), tol=TOL * Sq * nn))
                 if okc:
                     c.true("Plane.contains/offplane", not bool(r), "plane contains a point 5%% of the scale off it")
                 c.eq("Plane.PN/normal", np.cross(np.asarray(plane.n, dtype=float), nrm), np.zeros(3), TOL, max(1.0, nn * nn))
